@@ -231,6 +231,14 @@ func c12Body() func(h []dsim.Rec) {
 			}
 		}
 	}
+	// ... or the link goes bad (device unplugged, connection broken) some time after the node's
+	// writer got stuck behind the peer that does not drain
+	unplug := noRead && dsim.Choose(2) == 1
+	if unplug {
+		e.w.SendBuf = 300
+		e.w.OnNewConn = nil
+		cfg.hbPeriod = time.Duration(100+dsim.Choose(300)) * time.Millisecond
+	}
 	e.peerAPHeartbeats = cfg.srEnable && cfg.dialectKind == 0
 	d := &driverSet{e: e}
 	consMode := dsim.Choose(4) // 0,1 running; 2 stops after k events; 3 never started
@@ -301,6 +309,31 @@ func c12Body() func(h []dsim.Rec) {
 			e.mu.Lock()
 			w.done = true
 			e.mu.Unlock()
+		})
+	}
+	if unplug {
+		dsim.Go("unplug", func() {
+			broken := map[*world.Conn]bool{}
+			for i := 0; i < 150; i++ {
+				e.mu.Lock()
+				stop := stopWriters
+				e.mu.Unlock()
+				if stop {
+					return
+				}
+				for _, c := range e.w.Conns() {
+					if !c.NodeSide || c.Kind == "pipe" || c.Closed() || broken[c] {
+						continue
+					}
+					if pressed, _ := c.Pressed(); pressed {
+						broken[c] = true
+						dsim.Sleep(time.Duration(dsim.Choose(400)) * time.Millisecond)
+						c.InjectReadErr(errInjectedRead)
+						count("fault:read-error-while-writer-stuck")
+					}
+				}
+				dsim.Sleep(100 * time.Millisecond)
+			}
 		})
 	}
 	// the close point
@@ -447,7 +480,7 @@ func init() {
 			}
 			return false
 		},
-		ProbeUniverse: []string{"fault:peer-not-reading", "fault:dial-refused", "fault:dial-hang", "fault:dial-fail", "fault:serial-open-fail", "fault:write-block",
+		ProbeUniverse: []string{"fault:read-error-while-writer-stuck", "fault:peer-not-reading", "fault:dial-refused", "fault:dial-hang", "fault:dial-fail", "fault:serial-open-fail", "fault:write-block",
 			"cov:write-backpressure", "fault:init-failure", "cov:consumer-stops", "cov:consumer-never-started", "fault:peer-close", "fault:peer-reset"},
 		Real: []string{"gomavlib (Node, Channel, channelProvider, all endpoint kinds, heartbeat, stream requests; instrumented with scheduling points only)", "pkg/frame", "pkg/message", "pkg/dialect", "pkg/streamwriter", "pkg/timednetconn"},
 		Stub: []string{"goroutine scheduler (dsim)", "clock (synctest)", "net sockets, listeners, dialer", "pion UDP listener", "serial port", "crypto/rand"},
